@@ -51,6 +51,9 @@ CHECKS["C08"] = dict(cat="model_checking", tech="TLC model checking of Diff.tla 
 CHECKS["C16"] = dict(cat="model_checking", tech="TLC model checking of CdbFile.tla (slot tables with linear probing vs 'values in insertion order' for EVERY hash function and pair sequence) + TLC-enumerated pair sequences, searched SpookyHash collisions, sizes 0..50000 and buffer-boundary lengths written and read back with the real go-cdb-mods + TLC recomputation of the expected value lists (CdbTrace)",
     text="The slot-table construction and probing lookup are model-checked against the abstract sequence of pairs for every hash function into 8 values over 2 tables (every collision pattern of <=4-5 pairs); every enumerated sequence over keys {'', a, b} x values {'', x, yy}, keys found at run time that collide on table and start slot (wrapping chains) or in all 32 hash bits with an extension of themselves, sizes up to 50000 and lengths around the 4096-byte buffers are written with the real writer, read back key by key to end-of-data, enumerated and round-tripped through Dump -> Make (byte equality); TLC recomputes the expected lists.",
     note="Bounded model (3 keys, 2 tables, 8 hash values, <=5 pairs); real-code cases are sampled executions; trusts TLC, the harness' hex representation of byte strings.", ref="6.4")
+CHECKS["C17"] = dict(cat="exploration", tech="TLA+ escape grammar (Quote.tla: decoder + separator-freedom), self-checked by TLC (QuoteMC) + real Bquote/Bunquote on every byte string of length <= 2 and structured random strings, real MarshalText round trips of lines holding them + TLC trace validation (QuoteTrace)",
+    text="A single pure function pair: the spec is an executable contract (what any correct quoted form must decode to, and that it holds no separator); TLC checks the contract against trivially correct encoders and judges the real functions exhaustively for lengths <= 2 (65793 strings) and on structured random strings, including inside real data-file lines re-serialised by MarshalText.",
+    note="Exhaustive only up to length 2; longer strings are sampled (seeded); the grammar is the judge, strconv.Quote is not modelled; trusts TLC.", ref="7")
 NA = {}
 props = [json.loads(l)["id"] for l in open(os.path.join(V, "properties.jsonl"))]
 m = {
